@@ -14,7 +14,8 @@ EXPLAIN = ('ITS (structural, necessary clauses): (R1) interchain_transfer: every
            '(R5) inbound: the give uses (decoded recipient, registered config of the decoded id, decoded amount) and the '
            'received-event / executable call carry the same decoded terms; (R6) who-may-move-tokens: token-moving client '
            'calls occur only at the take (interchain_transfer), the give (execute) and the initial-supply mint '
-           '(deploy_interchain_token); custody outflow (transfer from self) only in execute.')
+           '(deploy_interchain_token); custody outflow (transfer from self) only in execute; (R7) the clauses of the statement that live in the called '
+           'contracts are evaluated too: gas service pay_gas (C14), gateway call_contract (C13), token burn/mint/transfer exactness (C12.R1/R2).')
 NOT_DECIDED = ('the conservation equations over histories (custody = locked - released, supply accounting) and anything '
                'inside the token contracts (T8); byte-exactness of the ABI encoding (T7).')
 ASSUME = ['T1', 'T2', 'T3', 'T6', 'T7', 'T8']
@@ -177,6 +178,13 @@ def check(P, rep):
             rep.check(ok, 'C05.R5', 'executable-call:after-give', 'the executable call happens only after a give', esite(g, e), None, w)
     else:
         rep.floor('ITS entry execute', 0, 1)
+    # ---- R7 clauses of this statement that live in the called contracts
+    include_rules(P, rep, 'C05.R7', 'c14', lambda o: 'pay_gas' in (o.get('key') or '') + (o.get('site') or '') + o['what'],
+                  'gas service charges exactly the stated gas payment from the payer', 6)
+    include_rules(P, rep, 'C05.R7', 'c13', lambda o: True, 'gateway announces exactly the payload it was given', 5)
+    include_rules(P, rep, 'C05.R7', 'c12', lambda o: o['rule'] in ('C12.R1', 'C12.R2') and any(x in (o.get('key') or '') + (o.get('site') or '') for x in
+                                                                                      ('::burn ', '::mint ', '::transfer ', 'burn:', 'mint:', 'transfer:')),
+                  'service-deployed token burns / mints / transfers exactly the amount (T9: the deployed wasm is built from contracts/interchain-token)', 10)
     # ---- R6 who-may-move-tokens
     nm = 0
     for cn, en in P.all_entries():
